@@ -111,7 +111,12 @@ def report(chk, own_prop, results, bad_events, attribute=None):
             if m["kind"] == "render":
                 raise C.ToolError("renderer failed on a case of suite %s: %s" % (r["suite"], m))
             prop = KIND_PROP.get(m["kind"], None) or suite_prop or (attribute(m) if attribute else None)
-            if prop != own_prop:
+            props = {prop}
+            if m["kind"] == "panic":
+                # the specification predicted an outcome of the abstract machine for this case and the
+                # implementation panicked instead: also a violation of the property the case belongs to
+                props.add(suite_prop or (attribute(m) if attribute else None))
+            if own_prop not in props:
                 n_other += 1
                 continue
             sig = {"kind": m["kind"], "suite": r["suite"], "what": m.get("what", "")[:200],
